@@ -898,8 +898,11 @@ func TestVerif_C10S(t *testing.T) {
 		if budget.spent() {
 			return
 		}
+		t0 := time.Now()
 		res := c20Run(env, c, mk, max)
+		res.Ms = time.Since(t0).Milliseconds()
 		budget.note(res)
+		env.renewAfter(res)
 		o.emit(res)
 	}
 	for ; id < n; id++ {
